@@ -40,6 +40,28 @@ CLAIMED = {
              'history. Hangs are detected exactly (nothing runnable, no timer) rather than by wall-clock.',
         note='Trusted: CPython 3.12 asyncio primitives, compatibility layer, FIFO ready queue. Source and tasks are '
              'instrumented stubs; the queue pop is observed through a PriorityQueue subclass.'),
+    'C08': dict(
+        level='exploration', engine='http_stream', design_ref='4/C08',
+        technique='deterministic simulation: scripted reactive origin server over a simulated transport whose segmentation, '
+                  'latency, FIN/RST truncation and surplus bytes are tape-drawn; results of the real HTTP client compared '
+                  'with an independent RFC 7230 reference decoder, plus metamorphic re-runs under fixed segmentations',
+        text='Seeded search over response scripts (status/method, header spellings, Content-Length / chunked with extensions '
+             'and trailers / read-until-close / no-body framings, content codings, surplus bytes, truncation at arbitrary '
+             'and grammar-targeted offsets by FIN or RST) and over stream segmentations down to single bytes, on persistent '
+             'connections in lock-step. Oracle: (status, fields, body, error) versus refs/rfc7230.py per exchange; truncated '
+             'messages must raise; connection reuse after surplus is monitored at the server.',
+        note='Trusted: refs/rfc7230.py for the generated unambiguous messages, zlib, CPython asyncio streams, compat layer. '
+             'Only messages for which RFC 7230 gives one answer are generated.'),
+    'C19': dict(
+        level='exploration', engine='http_stream', design_ref='4/C19',
+        technique='deterministic simulation: coded bodies (gzip, zlib-deflate, raw deflate, identity) delivered through the real '
+                  'HTTP stream in tape-drawn pieces (transport segmentation and chunk boundaries, forced 1-byte first pieces), '
+                  'with truncation/corruption injected inside the coded stream; oracle is zlib one-shot decoding',
+        text='Seeded search over payloads, compression settings, framings and segmentations; the pieces reaching the decoder are '
+             'produced by the simulated transport. Oracle: body equals one-shot zlib decoding for every segmentation '
+             '(absolute and metamorphic); coded streams truncated or corrupted with intact HTTP framing must raise ProtocolError.',
+        note='Trusted: zlib one-shot decode as reference. Byte 0 of a gzip stream is never corrupted (documented passthrough of '
+             'bodies without gzip magic is not judged).'),
 }
 
 PENDING_REASON = 'check not built yet in this round (designed in DESIGN.md section 4); no claim is made'
